@@ -2626,6 +2626,31 @@ theorem C11_history_independent (Q : Quirks) (s : Schema) (dom : List Val) (p : 
   | nil => intro w; rfl
   | cons st rest ih => intro w; simp only [runSeq, worlds, List.map_cons, ih]
 
+theorem foldl_applyEdit_filter_peek (st : List Edit) :
+    ∀ w : World, (st.filter fun e => !e.isPeek).foldl applyEdit w = st.foldl applyEdit w := by
+  induction st with
+  | nil => intro w; rfl
+  | cons e st ih =>
+    intro w
+    have hp : ∀ k, (Edit.peek k).isPeek = true := fun _ => rfl
+    have hs : ∀ i n v, (Edit.set i n v).isPeek = false := fun _ _ _ => rfl
+    have hn : ∀ o, (Edit.new o).isPeek = false := fun _ => rfl
+    have hf : ∀ i, (Edit.free i).isPeek = false := fun _ => rfl
+    cases e <;> simp only [List.filter_cons, hp, hs, hn, hf, Bool.not_false, Bool.not_true, if_true,
+      Bool.false_eq_true, if_false, List.foldl_cons, applyEdit, ih]
+
+/-- **C11_abandoned_irrelevant.** Evaluations of the same query object that are started and abandoned after any number
+of results (`Edit.peek`; at any point of any step, over a domain given as a list or as a one-shot generator) do not
+change any later answer: the history with every abandoned evaluation removed has the same answers. With
+`C11_history_independent` the k-th answer is `run` on the k-th world, domain contents unchanged. -/
+theorem C11_abandoned_irrelevant (Q : Quirks) (s : Schema) (dom : List Val) (p : Pat) :
+    ∀ (steps : List (List Edit)) (w : World),
+      runSeq Q s dom p w (steps.map fun st => st.filter fun e => !e.isPeek) = runSeq Q s dom p w steps := by
+  intro steps
+  induction steps with
+  | nil => intro w; rfl
+  | cons st rest ih => intro w; simp only [List.map_cons, runSeq, foldl_applyEdit_filter_peek, ih]
+
 theorem mem_zip_map {α β} (f : α → β) : ∀ (l : List α) (a : α × β), a ∈ l.zip (l.map f) → a.2 = f a.1 := by
   intro l
   induction l with
